@@ -117,6 +117,18 @@ func observe(st *trie.SlimTrie, qs []string, o obsOpt) []string {
 			b, err := st.Marshal()
 			return fmt.Sprintf("Marshal=%d bytes sha1 %x err=%v", len(b), sha1.Sum(b), err)
 		}))
+		// the advertised protobuf size, and proto.Marshal, are part of the serialisation API
+		out = append(out, capture(func() string {
+			b, _ := st.Marshal()
+			if sz := proto.Size(st); sz != len(b) {
+				return fmt.Sprintf("proto.Size=%d BUT Marshal produces %d bytes", sz, len(b))
+			}
+			pb, err := proto.Marshal(st)
+			if err != nil || !bytes.Equal(pb, b) {
+				return fmt.Sprintf("proto.Marshal differs from Marshal (err=%v)", err)
+			}
+			return "proto.Size and proto.Marshal agree with Marshal"
+		}))
 	}
 	return out
 }
